@@ -57,11 +57,11 @@ type GhostDecl struct {
 //	on store <var>: ...
 //	on return: assert e
 type Hook struct {
-	Event   string // "call", "store", "return", "loop"
-	Target  string
-	When    Expr
-	Assigns []HookStmt
-	Where   string
+	Event    string // "call", "store", "return", "loop"
+	Target   string
+	When     Expr
+	Assigns  []HookStmt
+	Where    string
 	Optional bool
 }
 type HookStmt struct {
